@@ -11,10 +11,10 @@ open PgVerif.Model.Store
 
 def exec {β : Type} (p : Sql β) (w : Work) : Except SqlErr β × Work := (ExceptT.run p).run w
 
-@[simp] theorem exec_pure {β} (a : β) (w : Work) : exec (pure a : Sql β) w = (.ok a, w) := rfl
-@[simp] theorem exec_throw {β} (e : SqlErr) (w : Work) : exec (throw e : Sql β) w = (.error e, w) := rfl
-@[simp] theorem exec_raise {β} (e : SqlErr) (w : Work) : exec (raise e : Sql β) w = (.error e, w) := rfl
-theorem exec_bind {α β} (p : Sql α) (f : α → Sql β) (w : Work) :
+@[simp] lemma exec_pure {β} (a : β) (w : Work) : exec (pure a : Sql β) w = (.ok a, w) := rfl
+@[simp] lemma exec_throw {β} (e : SqlErr) (w : Work) : exec (throw e : Sql β) w = (.error e, w) := rfl
+@[simp] lemma exec_raise {β} (e : SqlErr) (w : Work) : exec (raise e : Sql β) w = (.error e, w) := rfl
+lemma exec_bind {α β} (p : Sql α) (f : α → Sql β) (w : Work) :
     exec (p >>= f) w = match exec p w with
       | (.ok a, w') => exec (f a) w'
       | (.error e, w') => (.error e, w') := by
@@ -22,15 +22,15 @@ theorem exec_bind {α β} (p : Sql α) (f : α → Sql β) (w : Work) :
   show (match (StateT.run (ExceptT.run p) w) with | (a, s) => _) = _
   rcases h : StateT.run (ExceptT.run p) w with ⟨r, w'⟩
   cases r <;> rfl
-theorem exec_map {α β} (p : Sql α) (f : α → β) (w : Work) :
+lemma exec_map {α β} (p : Sql α) (f : α → β) (w : Work) :
     exec (f <$> p) w = match exec p w with
       | (.ok a, w') => (.ok (f a), w')
       | (.error e, w') => (.error e, w') := by
   rw [map_eq_pure_bind, exec_bind]; rfl
-@[simp] theorem exec_get (w : Work) : exec (get : Sql Work) w = (.ok w, w) := rfl
-@[simp] theorem exec_set (w' w : Work) : exec (set w' : Sql Unit) w = (.ok (), w') := rfl
-@[simp] theorem exec_modify (f : Work → Work) (w : Work) : exec (modify f : Sql Unit) w = (.ok (), f w) := rfl
-@[simp] theorem exec_modifyMem (f : Mem → Mem) (w : Work) : exec (modifyMem f) w = (.ok (), { w with mem := f w.mem }) := rfl
+@[simp] lemma exec_get (w : Work) : exec (get : Sql Work) w = (.ok w, w) := rfl
+@[simp] lemma exec_set (w' w : Work) : exec (set w' : Sql Unit) w = (.ok (), w') := rfl
+@[simp] lemma exec_modify (f : Work → Work) (w : Work) : exec (modify f : Sql Unit) w = (.ok (), f w) := rfl
+@[simp] lemma exec_modifyMem (f : Mem → Mem) (w : Work) : exec (modifyMem f) w = (.ok (), { w with mem := f w.mem }) := rfl
 
 
 /-- the fault injected at statement `k` before the statement runs -/
@@ -42,7 +42,7 @@ def injected (f : Option (Nat × FaultKind)) (k : Nat) : Option SqlErr :=
   | some (kf, .exitBefore) => if kf = k then some .exit else none
   | _ => none
 
-theorem exec_stmt {β} (body : Db → Except SqlErr (β × Db)) (w : Work) :
+lemma exec_stmt {β} (body : Db → Except SqlErr (β × Db)) (w : Work) :
     exec (stmt body) w =
       match injected w.fault w.n with
       | some e => (.error e, { w with n := w.n + 1 })
@@ -74,11 +74,11 @@ def Rel (E : SqlErr → Prop) (R : Work → Work → Prop) {β : Type} (p : Sql 
 namespace Rel
 variable {E : SqlErr → Prop} {R : Work → Work → Prop}
 
-theorem pure {β} (a : β) : Rel E R (Pure.pure a : Sql β) := fun _ _ h => Or.inr ⟨rfl, h⟩
-theorem throw {β} (e : SqlErr) : Rel E R (throw e : Sql β) := fun _ _ h => Or.inr ⟨rfl, h⟩
-theorem raise {β} (e : SqlErr) : Rel E R (raise e : Sql β) := fun _ _ h => Or.inr ⟨rfl, h⟩
+lemma pure {β} (a : β) : Rel E R (Pure.pure a : Sql β) := fun _ _ h => Or.inr ⟨rfl, h⟩
+lemma throw {β} (e : SqlErr) : Rel E R (throw e : Sql β) := fun _ _ h => Or.inr ⟨rfl, h⟩
+lemma raise {β} (e : SqlErr) : Rel E R (raise e : Sql β) := fun _ _ h => Or.inr ⟨rfl, h⟩
 
-theorem bind {α β} {p : Sql α} {f : α → Sql β} (hp : Rel E R p) (hf : ∀ a, Rel E R (f a)) : Rel E R (p >>= f) := by
+lemma bind {α β} {p : Sql α} {f : α → Sql β} (hp : Rel E R p) (hf : ∀ a, Rel E R (f a)) : Rel E R (p >>= f) := by
   intro w w' h
   rw [exec_bind, exec_bind]
   rcases hp w w' h with ⟨e, hE, he⟩ | ⟨h1, h2⟩
@@ -98,11 +98,11 @@ theorem bind {α β} {p : Sql α} {f : α → Sql β} (hp : Rel E R p) (hf : ∀
     | error e => exact Or.inr ⟨rfl, h2⟩
     | ok a => exact hf a w1 w1' h2
 
-theorem ite {β} {c : Prop} [Decidable c] {p q : Sql β} (hp : Rel E R p) (hq : Rel E R q) :
+lemma ite {β} {c : Prop} [Decidable c] {p q : Sql β} (hp : Rel E R p) (hq : Rel E R q) :
     Rel E R (if c then p else q) := by
   split <;> assumption
 
-theorem forIn {α β} (l : List α) (f : α → β → Sql (ForInStep β)) (hf : ∀ a b, Rel E R (f a b)) (b : β) :
+lemma forIn {α β} (l : List α) (f : α → β → Sql (ForInStep β)) (hf : ∀ a b, Rel E R (f a b)) (b : β) :
     Rel E R (forIn l b f) := by
   induction l generalizing b with
   | nil => rw [List.forIn_nil]; exact pure b
@@ -133,35 +133,35 @@ macro "sql_struct" hs:ident hm:ident : tactic => `(tactic|
     | (split)
     | dsimp only))
 
-theorem rel_adsToDb (name props autoinsert overwrite) : Rel E R (adsToDb name props autoinsert overwrite) := by
+lemma rel_adsToDb (name props autoinsert overwrite) : Rel E R (adsToDb name props autoinsert overwrite) := by
   unfold adsToDb readStmt writeStmt
   sql_struct hs hm
 
-theorem rel_matToDb (name props autoinsert overwrite) : Rel E R (matToDb name props autoinsert overwrite) := by
+lemma rel_matToDb (name props autoinsert overwrite) : Rel E R (matToDb name props autoinsert overwrite) := by
   unfold matToDb readStmt writeStmt
   sql_struct hs hm
 
-theorem rel_adsDelete (name) : Rel E R (adsDelete name) := by
+lemma rel_adsDelete (name) : Rel E R (adsDelete name) := by
   unfold adsDelete readStmt writeStmt
   sql_struct hs hm
 
-theorem rel_matDelete (name) : Rel E R (matDelete name) := by
+lemma rel_matDelete (name) : Rel E R (matDelete name) := by
   unfold matDelete readStmt writeStmt
   sql_struct hs hm
 
-theorem rel_typeToDb (tb t u d o) : Rel E R (typeToDb tb t u d o) := by
+lemma rel_typeToDb (tb t u d o) : Rel E R (typeToDb tb t u d o) := by
   unfold typeToDb writeStmt
   sql_struct hs hm
 
-theorem rel_typeDelete (tb t) : Rel E R (typeDelete tb t) := by
+lemma rel_typeDelete (tb t) : Rel E R (typeDelete tb t) := by
   unfold typeDelete readStmt writeStmt
   sql_struct hs hm
 
-theorem rel_isoDelete (id) : Rel E R (isoDelete id) := by
+lemma rel_isoDelete (id) : Rel E R (isoDelete id) := by
   unfold isoDelete readStmt writeStmt
   sql_struct hs hm
 
-theorem rel_isoToDb (i am aa) : Rel E R (isoToDb i am aa) := by
+lemma rel_isoToDb (i am aa) : Rel E R (isoToDb i am aa) := by
   unfold isoToDb readStmt writeStmt
   have h1 := rel_adsToDb (E := E) (R := R) hs hm
   have h2 := rel_matToDb (E := E) (R := R) hs hm
@@ -173,7 +173,7 @@ theorem rel_isoToDb (i am aa) : Rel E R (isoToDb i am aa) := by
     | (split)
     | dsimp only)
 
-theorem rel_opBody (op : Op) : Rel E R op.body := by
+lemma rel_opBody (op : Op) : Rel E R op.body := by
   cases op with
   | adsToDb n p a o => exact rel_adsToDb hs hm n p a o
   | matToDb n p a o => exact rel_matToDb hs hm n p a o
@@ -189,7 +189,7 @@ def prog (op : Op) : Sql Unit := do
   writeStmt fun d => .ok d
   op.body
 
-theorem rel_prog (op : Op) : Rel E R (prog op) := by
+lemma rel_prog (op : Op) : Rel E R (prog op) := by
   unfold prog writeStmt
   exact Rel.bind (hs _) fun _ => rel_opBody hs hm op
 
@@ -209,7 +209,7 @@ def finish (db : Db) (mem : Mem) (fault : Option (Nat × FaultKind)) (rw : Excep
   | .error .operational => ⟨db, rw.2.mem, .otherError, rw.2.n⟩
   | .error .exit => ⟨db, mem, .died, rw.2.n⟩
 
-theorem runOp_eq (db : Db) (mem : Mem) (op : Op) (fault : Option (Nat × FaultKind)) :
+lemma runOp_eq (db : Db) (mem : Mem) (op : Op) (fault : Option (Nat × FaultKind)) :
     runOp db mem op fault = finish db mem fault (exec (prog op) ⟨db, mem, 0, fault⟩) := by
   unfold runOp finish exec prog
   rcases h : StateT.run (ExceptT.run (do writeStmt fun d => Except.ok d; op.body)) ⟨db, mem, 0, fault⟩ with ⟨r, w⟩
@@ -275,7 +275,7 @@ lemma stmtCount_eq (db : Db) (mem : Mem) (op : Op) :
 /-- same working copy, counter and fault plan; the in-memory lists may differ -/
 def memR (w w' : Work) : Prop := w.db = w'.db ∧ w.n = w'.n ∧ w.fault = w'.fault
 
-theorem memR_stmt {β : Type} (body : Db → Except SqlErr (β × Db)) : Rel (fun _ => False) memR (stmt body) := by
+lemma memR_stmt {β : Type} (body : Db → Except SqlErr (β × Db)) : Rel (fun _ => False) memR (stmt body) := by
   rintro ⟨db, mem, n, f⟩ ⟨db', mem', n', f'⟩ ⟨h1, h2, h3⟩
   simp only at h1 h2 h3
   subst h1 h2 h3
@@ -293,7 +293,7 @@ theorem memR_stmt {β : Type} (body : Db → Except SqlErr (β × Db)) : Rel (fu
       simp only
       split <;> exact ⟨rfl, rfl, rfl, rfl⟩
 
-theorem memR_modifyMem (f : Mem → Mem) : Rel (fun _ => False) memR (modifyMem f) := by
+lemma memR_modifyMem (f : Mem → Mem) : Rel (fun _ => False) memR (modifyMem f) := by
   rintro w w' ⟨h1, h2, h3⟩
   exact Or.inr ⟨rfl, h1, h2, h3⟩
 
@@ -303,7 +303,7 @@ theorem memR_modifyMem (f : Mem → Mem) : Rel (fun _ => False) memR (modifyMem 
 def faultR (k : Nat) (kind : FaultKind) (w w' : Work) : Prop :=
   w.db = w'.db ∧ w.n = w'.n ∧ w.mem = w'.mem ∧ w.fault = some (k, kind) ∧ w'.fault = none
 
-theorem faultR_stmt (k : Nat) (kind : FaultKind) {β : Type} (body : Db → Except SqlErr (β × Db)) :
+lemma faultR_stmt (k : Nat) (kind : FaultKind) {β : Type} (body : Db → Except SqlErr (β × Db)) :
     Rel (fun _ => True) (faultR k kind) (stmt body) := by
   rintro ⟨db, mem, n, f⟩ ⟨db', mem', n', f'⟩ ⟨h1, h2, h3, h4, h5⟩
   simp only at h1 h2 h3 h4 h5
@@ -325,7 +325,7 @@ theorem faultR_stmt (k : Nat) (kind : FaultKind) {β : Type} (body : Db → Exce
       · exact Or.inl ⟨_, trivial, rfl⟩
       · exact Or.inr ⟨rfl, rfl, rfl, rfl, rfl, rfl⟩
 
-theorem faultR_modifyMem (k : Nat) (kind : FaultKind) (f : Mem → Mem) : Rel (fun _ => True) (faultR k kind) (modifyMem f) := by
+lemma faultR_modifyMem (k : Nat) (kind : FaultKind) (f : Mem → Mem) : Rel (fun _ => True) (faultR k kind) (modifyMem f) := by
   rintro w w' ⟨h1, h2, h3, h4, h5⟩
   refine Or.inr ⟨rfl, h1, h2, ?_, h4, h5⟩
   simp only [exec_modifyMem, h3]
@@ -334,7 +334,7 @@ theorem faultR_modifyMem (k : Nat) (kind : FaultKind) (f : Mem → Mem) : Rel (f
 
 /-- `fault_not_hit`: if the body, run with the fault plan `(k, kind)`, returns normally, then its final working state
 (working copy, statement counter, in-memory lists) is exactly the one of the fault-free run. -/
-theorem exec_fault_not_hit (db : Db) (mem : Mem) (op : Op) (k : Nat) (kind : FaultKind)
+lemma exec_fault_not_hit (db : Db) (mem : Mem) (op : Op) (k : Nat) (kind : FaultKind)
     (h : (exec (prog op) ⟨db, mem, 0, some (k, kind)⟩).1 = .ok ()) :
     (exec (prog op) ⟨db, mem, 0, none⟩).1 = .ok () ∧
     (exec (prog op) ⟨db, mem, 0, some (k, kind)⟩).2.db = (exec (prog op) ⟨db, mem, 0, none⟩).2.db ∧
@@ -347,7 +347,7 @@ theorem exec_fault_not_hit (db : Db) (mem : Mem) (op : Op) (k : Nat) (kind : Fau
 
 /-- **Atomicity**: whatever statement a fault hits and whatever its kind, the committed file content afterwards is either
 the content before the call or the content the fault-free call commits. -/
-theorem runOp_atomic (db : Db) (mem : Mem) (op : Op) (k : Nat) (kind : FaultKind) :
+lemma runOp_atomic (db : Db) (mem : Mem) (op : Op) (k : Nat) (kind : FaultKind) :
     (runOp db mem op (some (k, kind))).db = db ∨
       (runOp db mem op (some (k, kind))).db = (runOp db mem op none).db := by
   rw [runOp_eq, runOp_eq]
@@ -362,7 +362,7 @@ theorem runOp_atomic (db : Db) (mem : Mem) (op : Op) (k : Nat) (kind : FaultKind
 
 /-! ### fault-free runs -/
 
-theorem exec_stmt_none {β} (body : Db → Except SqlErr (β × Db)) (db : Db) (mem : Mem) (n : Nat) :
+lemma exec_stmt_none {β} (body : Db → Except SqlErr (β × Db)) (db : Db) (mem : Mem) (n : Nat) :
     exec (stmt body) ⟨db, mem, n, none⟩ =
       match body db with
       | .error e => (.error e, ⟨db, mem, n + 1, none⟩)
@@ -374,11 +374,11 @@ theorem exec_stmt_none {β} (body : Db → Except SqlErr (β × Db)) (db : Db) (
   | error e => rfl
   | ok p => obtain ⟨r, d⟩ := p; simp
 
-@[simp] theorem exec_readStmt_none {β} (g : Db → β) (db : Db) (mem : Mem) (n : Nat) :
+@[simp] lemma exec_readStmt_none {β} (g : Db → β) (db : Db) (mem : Mem) (n : Nat) :
     exec (readStmt g) ⟨db, mem, n, none⟩ = (.ok (g db), ⟨db, mem, n + 1, none⟩) := by
   unfold readStmt; rw [exec_stmt_none]
 
-theorem exec_writeStmt_none (f : Db → Except SqlErr Db) (db : Db) (mem : Mem) (n : Nat) :
+lemma exec_writeStmt_none (f : Db → Except SqlErr Db) (db : Db) (mem : Mem) (n : Nat) :
     exec (writeStmt f) ⟨db, mem, n, none⟩ =
       match f db with
       | .error e => (.error e, ⟨db, mem, n + 1, none⟩)
@@ -386,11 +386,11 @@ theorem exec_writeStmt_none (f : Db → Except SqlErr Db) (db : Db) (mem : Mem) 
   unfold writeStmt; rw [exec_stmt_none]
   cases f db <;> rfl
 
-theorem exec_writeStmt_ok {f : Db → Except SqlErr Db} {db d : Db} (h : f db = .ok d) (mem : Mem) (n : Nat) :
+lemma exec_writeStmt_ok {f : Db → Except SqlErr Db} {db d : Db} (h : f db = .ok d) (mem : Mem) (n : Nat) :
     exec (writeStmt f) ⟨db, mem, n, none⟩ = (.ok (), ⟨d, mem, n + 1, none⟩) := by
   rw [exec_writeStmt_none, h]
 
-theorem exec_writeStmt_error {f : Db → Except SqlErr Db} {db : Db} {e : SqlErr} (h : f db = .error e) (mem : Mem) (n : Nat) :
+lemma exec_writeStmt_error {f : Db → Except SqlErr Db} {db : Db} {e : SqlErr} (h : f db = .error e) (mem : Mem) (n : Nat) :
     exec (writeStmt f) ⟨db, mem, n, none⟩ = (.error e, ⟨db, mem, n + 1, none⟩) := by
   rw [exec_writeStmt_none, h]
 
@@ -403,7 +403,7 @@ def outcomeOf : Except SqlErr Unit → Outcome
   | .error .exit => .died
 
 /-- the fault-free call: the PRAGMA is statement 0, the body starts at counter 1 -/
-theorem runOp_none (db : Db) (mem : Mem) (op : Op) :
+lemma runOp_none (db : Db) (mem : Mem) (op : Op) :
     (runOp db mem op none).out = outcomeOf (exec op.body ⟨db, mem, 1, none⟩).1 ∧
     (runOp db mem op none).db =
       (match (exec op.body ⟨db, mem, 1, none⟩).1 with
@@ -426,8 +426,8 @@ def okP (P : Db → Prop) (E : SqlErr → Prop) : Except SqlErr Db → Prop
   | .ok d => P d
   | .error e => E e
 
-@[simp] theorem okP_ok {P : Db → Prop} {E : SqlErr → Prop} (d : Db) : okP P E (.ok d) = P d := rfl
-@[simp] theorem okP_error {P : Db → Prop} {E : SqlErr → Prop} (e : SqlErr) : okP P E (.error e) = E e := rfl
+@[simp] lemma okP_ok {P : Db → Prop} {E : SqlErr → Prop} (d : Db) : okP P E (.ok d) = P d := rfl
+@[simp] lemma okP_error {P : Db → Prop} {E : SqlErr → Prop} (e : SqlErr) : okP P E (.error e) = E e := rfl
 
 /-- every error may escape -/
 abbrev anyErr : SqlErr → Prop := fun _ => True
@@ -443,11 +443,11 @@ def Inv (E : SqlErr → Prop) (P : Db → Prop) {β : Type} (p : Sql β) : Prop 
 namespace Inv
 variable {E : SqlErr → Prop} {P : Db → Prop}
 
-theorem pure {β} (a : β) : Inv E P (Pure.pure a : Sql β) := fun _ h1 h2 => Or.inr ⟨a, rfl, h1, h2⟩
-theorem throw {β} (e : SqlErr) (he : E e) : Inv E P (throw e : Sql β) := fun _ _ _ => Or.inl ⟨e, he, rfl⟩
-theorem raise {β} (e : SqlErr) (he : E e) : Inv E P (raise e : Sql β) := fun _ _ _ => Or.inl ⟨e, he, rfl⟩
+lemma pure {β} (a : β) : Inv E P (Pure.pure a : Sql β) := fun _ h1 h2 => Or.inr ⟨a, rfl, h1, h2⟩
+lemma throw {β} (e : SqlErr) (he : E e) : Inv E P (throw e : Sql β) := fun _ _ _ => Or.inl ⟨e, he, rfl⟩
+lemma raise {β} (e : SqlErr) (he : E e) : Inv E P (raise e : Sql β) := fun _ _ _ => Or.inl ⟨e, he, rfl⟩
 
-theorem bind {α β} {p : Sql α} {f : α → Sql β} (hp : Inv E P p) (hf : ∀ a, Inv E P (f a)) : Inv E P (p >>= f) := by
+lemma bind {α β} {p : Sql α} {f : α → Sql β} (hp : Inv E P p) (hf : ∀ a, Inv E P (f a)) : Inv E P (p >>= f) := by
   intro w h1 h2
   rw [exec_bind]
   rcases hp w h1 h2 with ⟨e, hE, he⟩ | ⟨a, ha, h3, h4⟩
@@ -464,11 +464,11 @@ theorem bind {α β} {p : Sql α} {f : α → Sql β} (hp : Inv E P p) (hf : ∀
     subst ha
     exact hf a w1 h3 h4
 
-theorem ite {β} {c : Prop} [Decidable c] {p q : Sql β} (hp : Inv E P p) (hq : Inv E P q) :
+lemma ite {β} {c : Prop} [Decidable c] {p q : Sql β} (hp : Inv E P p) (hq : Inv E P q) :
     Inv E P (if c then p else q) := by
   split <;> assumption
 
-theorem forIn {α β} (l : List α) (f : α → β → Sql (ForInStep β)) (hf : ∀ a b, Inv E P (f a b)) (b : β) :
+lemma forIn {α β} (l : List α) (f : α → β → Sql (ForInStep β)) (hf : ∀ a b, Inv E P (f a b)) (b : β) :
     Inv E P (forIn l b f) := by
   induction l generalizing b with
   | nil => rw [List.forIn_nil]; exact pure b
@@ -480,7 +480,7 @@ theorem forIn {α β} (l : List α) (f : α → β → Sql (ForInStep β)) (hf :
     | done b => exact pure b
     | yield b => exact ih b
 
-theorem forIn_mem {α β} (l : List α) (f : α → β → Sql (ForInStep β)) (hf : ∀ a ∈ l, ∀ b, Inv E P (f a b)) (b : β) :
+lemma forIn_mem {α β} (l : List α) (f : α → β → Sql (ForInStep β)) (hf : ∀ a ∈ l, ∀ b, Inv E P (f a b)) (b : β) :
     Inv E P (ForIn.forIn l b f) := by
   induction l generalizing b with
   | nil => rw [List.forIn_nil]; exact pure b
@@ -492,7 +492,7 @@ theorem forIn_mem {α β} (l : List α) (f : α → β → Sql (ForInStep β)) (
     | done b => exact pure b
     | yield b => exact ih (fun a' ha' => hf a' (List.mem_cons_of_mem _ ha')) b
 
-theorem stmt {β} (body : Db → Except SqlErr (β × Db))
+lemma stmt {β} (body : Db → Except SqlErr (β × Db))
     (h : ∀ d, P d → match body d with | .ok (_, d') => P d' | .error e => E e) : Inv E P (stmt body) := by
   rintro ⟨db, mem, n, f⟩ hf hP
   simp only at hf hP
@@ -503,16 +503,16 @@ theorem stmt {β} (body : Db → Except SqlErr (β × Db))
   | error e => rw [hb] at this; exact Or.inl ⟨e, this, rfl⟩
   | ok p => obtain ⟨r, d⟩ := p; rw [hb] at this; exact Or.inr ⟨r, rfl, rfl, this⟩
 
-theorem readStmt {β} (g : Db → β) : Inv E P (readStmt g) := stmt _ fun _ h => h
+lemma readStmt {β} (g : Db → β) : Inv E P (readStmt g) := stmt _ fun _ h => h
 
-theorem writeStmt (f : Db → Except SqlErr Db) (h : ∀ d, P d → okP P E (f d)) : Inv E P (writeStmt f) := by
+lemma writeStmt (f : Db → Except SqlErr Db) (h : ∀ d, P d → okP P E (f d)) : Inv E P (writeStmt f) := by
   refine stmt _ fun d hd => ?_
   have := h d hd
   cases hf : f d with
   | error e => rw [hf] at this; exact this
   | ok d' => rw [hf] at this; exact this
 
-theorem modifyMem (f : Mem → Mem) : Inv E P (modifyMem f) := fun _ h1 h2 => Or.inr ⟨(), rfl, h1, h2⟩
+lemma modifyMem (f : Mem → Mem) : Inv E P (modifyMem f) := fun _ h1 h2 => Or.inr ⟨(), rfl, h1, h2⟩
 
 end Inv
 
